@@ -97,7 +97,7 @@ pub fn main(a: &Args) {
     let mut rng = Rng::new(a.num("seed", 1));
     if let Some(cases) = a.get("cases") {
         let cases = read_ndjson(cases);
-        let chars: Vec<char> = a.get("chars").unwrap_or("abA'").chars().collect();
+        let chars: Vec<char> = a.get("chars").unwrap_or("abAB'").chars().collect();
         // all queries of length <= 2 over the alphabet, plus a few of length 3
         let mut queries: Vec<Vec<char>> = vec![vec![]];
         for c in &chars { queries.push(vec![*c]); }
@@ -107,6 +107,28 @@ pub fn main(a: &Args) {
         let sel: Vec<&Value> = cases.iter().enumerate().filter(|(i, _)| i % stride == (a.num("seed", 1) as usize % stride)).map(|(_, c)| c).collect();
         let evs = par_map(sel.len(), a.num("threads", 12) as usize, |_| (), |_, i| small_case(sel[i], &queries, i));
         for v in evs { for e in v { out.emit(&e); } }
+    }
+    // the string-taking and the character-taking form of every lookup answer alike, also where lower-casing a whole
+    // string is not lower-casing its characters (a final capital sigma, the dotted capital I, sharp s, ligatures)
+    if a.get("cases").is_some() {
+        let words = ["ΟΔΟΣ", "λόγος", "ΣΟΦΟΣ", "Σ", "ΑΣΑ", "İstanbul", "STRASSE", "straße", "ǅ", "ﬁn", "Ὀδυσσεύς", "ΌΣΟΣ", "Zoë", "ÅNGSTRÖM"];
+        let dicts: Vec<(&str, Box<dyn Dictionary>)> = {
+            let ws: Vec<Vec<char>> = words.iter().map(|w| w.chars().collect()).collect();
+            let mut md = MergedDictionary::new();
+            md.add_dictionary(Arc::new(mk_mut(&ws[..5])));
+            md.add_dictionary(Arc::new(mk_fst(&ws[5..])));
+            vec![("mutable", Box::new(mk_mut(&ws)) as Box<dyn Dictionary>), ("fst", Box::new(mk_fst(&ws))), ("merged", Box::new(md))]
+        };
+        for (name, d) in &dicts {
+            for w in words {
+                for q in [w.to_string(), w.to_lowercase(), w.to_uppercase(), w.chars().flat_map(|c| c.to_lowercase()).collect::<String>(), w.chars().flat_map(|c| c.to_uppercase()).collect::<String>()] {
+                    let qc: Vec<char> = q.chars().collect();
+                    let agree = d.contains_word_str(&q) == d.contains_word(&qc) && d.contains_exact_word_str(&q) == d.contains_exact_word(&qc)
+                        && d.get_word_metadata_str(&q).is_some() == d.get_word_metadata(&qc).is_some();
+                    out.emit(&json!({"ev": "StrAgree", "dict": name, "q": q, "agree": agree}));
+                }
+            }
+        }
     }
     // curated dictionary: sampled words, re-cased, edited, apostrophe variants, odd queries
     let nq = a.num("curated-queries", 0) as usize;
